@@ -127,6 +127,16 @@ class Exec:
             if self.spec_mode: raise ToolLimit('spec reads attribute of None (line %s)' % getattr(e, 'lineno', '?'))
             self.ctx.raise_(st, 'AttributeError', e, None, 'None.%s' % e.attr)
             st.assume(z3.BoolVal(False)); return VAny(z3.Const('dead', AnySort))
+        if hasattr(base, 'attr') and not isinstance(base, VFunc): return base.attr(self, st, e, e.attr)
+        if isinstance(base, VFunc) and base.kind == 'excinst':
+            attrs = lib.EXC_ATTRS.get(base.name)
+            if attrs is None:
+                for b in ('UnicodeEncodeError', 'UnicodeDecodeError'):
+                    if exc_isa(base.name, b): attrs = lib.EXC_ATTRS[b]
+            if e.attr in (attrs or ()) or e.attr in ('args', 'with_traceback', '__class__', '__cause__', '__context__'):
+                return VStr(z3.FreshConst(z3.StringSort(), 'excattr')) if e.attr != 'args' else VTuple([])
+            self.may_raise(st, 'AttributeError', e, None, z3.BoolVal(False), '%s has no attribute %s' % (base.name, e.attr))
+            return VStr('')
         if isinstance(base, VRef) and e.attr == '__class__': return VCls(base)
         if isinstance(base, VCls) and e.attr == '__name__':
             return SPECFUNS['cls_name'](self, st, base.ref)
@@ -144,7 +154,7 @@ class Exec:
                 return self.apply_contract(CONTRACTS[prop], [base], {}, st, e)
             if prop: return VFunc('method', prop, base)
             raise ToolLimit('unknown attribute %s.%s (line %s)' % (base.cls, e.attr, getattr(e, 'lineno', '?')))
-        if isinstance(base, (VStr, VList, VSet, VDict, VTuple, VInt)):
+        if isinstance(base, (VStr, VList, VSet, VDict, VTuple, VInt, lib.VConst)):
             return VFunc('libmethod', e.attr, base)
         if isinstance(base, VRec):
             if e.attr in base.fields: return base.fields[e.attr]
@@ -199,7 +209,7 @@ class Exec:
                 self.ctx.raise_(st, 'TypeError', e, None, 'str + bytes'); st.assume(z3.BoolVal(False))
             return VStr(z3.Concat(a.term, b.term), a.ty)
         if isinstance(a, VStr) and isinstance(op, ast.Mod): raise ToolLimit('%% formatting (line %s)' % e.lineno)
-        if isinstance(a, VSet) and isinstance(b, VSet) and isinstance(op, (ast.BitAnd, ast.Sub, ast.BitOr)):
+        if isinstance(a, (VSet, lib.VCharsOf)) and isinstance(b, (VSet, lib.VConst)) and isinstance(op, (ast.BitAnd, ast.Sub, ast.BitOr)):
             return lib.set_binop(op, a, b, st)
         if isinstance(a, VList) and isinstance(b, VList) and isinstance(op, ast.Add):
             return lib.list_concat(a, b, st)
@@ -213,6 +223,10 @@ class Exec:
         if isinstance(op, ast.Mod):
             self.may_raise(st, 'ZeroDivisionError', e, b.term == 0, b.term != 0)
             return VInt(lib.pymod(a.term, b.term))
+        if isinstance(op, ast.LShift):
+            self.may_raise(st, 'ValueError', e, b.term < 0, b.term >= 0, 'negative shift count')
+            p2 = lib.POW2(b.term); st.assume(p2 >= 1)
+            return VInt(a.term * p2)
         raise ToolLimit('binop %s (line %s)' % (type(op).__name__, e.lineno))
 
     def ev_BoolOp(self, e, st):
@@ -358,6 +372,19 @@ class Exec:
 
     ev_Await = ev_YieldFrom
 
+    def eval_for_effects(self, e, st):
+        """evaluate an expression only for the exceptions it can raise; calls the engine cannot model are descended into"""
+        try:
+            self.ev(e, st)
+        except ToolLimit:
+            if isinstance(e, ast.Call):
+                for a in list(e.args) + [k.value for k in e.keywords]: self.eval_for_effects(a, st)
+                if isinstance(e.func, ast.Attribute): self.eval_for_effects(e.func.value, st)
+            elif isinstance(e, (ast.Attribute, ast.Subscript, ast.Starred)): self.eval_for_effects(e.value, st)
+            elif isinstance(e, (ast.BinOp,)): self.eval_for_effects(e.left, st); self.eval_for_effects(e.right, st)
+            elif isinstance(e, (ast.Tuple, ast.List)):
+                for x in e.elts: self.eval_for_effects(x, st)
+
     def sched_point(self, st, node, callee):
         me = self.ctx.c
         # (i) the class invariant must hold whenever control is given up
@@ -375,6 +402,10 @@ class Exec:
         root = e.func
         while isinstance(root, ast.Attribute): root = root.value
         if isinstance(root, ast.Name) and root.id in DROP_CALLS and not self.spec_mode:
+            if self.ctx.c.eval_log_args:
+                # exception-escape contract: the arguments of the log call ARE evaluated (DESIGN 2.2)
+                for a in list(e.args) + [k.value for k in e.keywords]: self.eval_for_effects(a, st)
+                return VNone()
             self.ctx.warnings.append('dropped call at line %d: %s' % (e.lineno, src(e)))
             return VNone()
         if isinstance(e.func, ast.Name) and e.func.id == '_' and len(e.args) == 1 and '_' not in st.env:
@@ -418,7 +449,11 @@ class Exec:
             args.append(self.ev(a, st))
         kwargs = {}
         for k in e.keywords:
-            if k.arg is None: raise ToolLimit('**kwargs at call (line %s)' % e.lineno)
+            if k.arg is None:
+                kv = self.ev(k.value, st)
+                if isinstance(kv, VAny):
+                    self.ctx.warnings.append('**%s at line %s: treated as no extra keyword arguments' % (src(k.value), e.lineno)); continue
+                raise ToolLimit('**kwargs at call (line %s)' % e.lineno)
             kwargs[k.arg] = self.ev(k.value, st)
         from . import fsmodel
         if isinstance(f, VFunc) and f.kind == 'filemethod': return fsmodel.file_method(self, st, e, f.recv, f.name, args)
@@ -570,6 +605,10 @@ class Exec:
             return v
         if isinstance(v, lib.VEmpty): return lib.empty_of(ty)
         if isinstance(ty, TList) and isinstance(v, VTuple) and v.items: return lib.list_of(v.items, None)
+        if isinstance(ty, TSet) and isinstance(v, lib.VConst) and isinstance(ty.elem, TInt):
+            mem = z3.K(z3.IntSort(), z3.BoolVal(False))
+            for k in sorted(v.py): mem = z3.Store(mem, k, True)
+            return VSet(mem, z3.IntVal(len(v.py)), ty.elem)
         if isinstance(ty, TInt) and isinstance(v, VBool): return VInt(z3.If(v.term, 1, 0))
         if isinstance(ty, TBool) and not isinstance(v, (VBool, VOpt)): return VBool(truthy(v))
         if isinstance(ty, TAny) and not isinstance(v, VAny): return VAny(z3.FreshConst(AnySort, 'any'))
@@ -747,11 +786,14 @@ class Exec:
 
     def assign(self, t, v, st):
         if isinstance(v, lib.VEmpty):
-            if isinstance(t, ast.Name) and t.id in self.ctx.c.locals: v = lib.empty_of(self.ctx.c.locals[t.id])
+            if isinstance(t, ast.Name) and isinstance(self.ctx.c.locals.get(t.id), TObj):
+                v = new_object(st, self.ctx.c.locals[t.id].cls)          # an abstracted container object
+            elif isinstance(t, ast.Name) and t.id in self.ctx.c.locals: v = lib.empty_of(self.ctx.c.locals[t.id])
             elif isinstance(t, ast.Attribute):
                 base = self.ev(t.value, st)
                 if isinstance(base, VRef): v = lib.empty_of(field_type(base.cls, t.attr)[0])
                 else: raise ToolLimit('empty container store (line %s)' % t.lineno)
+            elif isinstance(t, ast.Subscript): v = VAny(z3.FreshConst(AnySort, 'empty'))
             else: raise ToolLimit('empty container for undeclared local (line %s)' % t.lineno)
         if isinstance(t, ast.Name):
             if t.id in self.ctx.c.locals and not isinstance(v, VFunc):
@@ -766,6 +808,10 @@ class Exec:
             if setter: self.apply_contract(CONTRACTS[setter], [base, v], {}, st, t)
             else:
                 ty, _ = field_type(base.cls, t.attr)
+                if isinstance(v, VOpt) and not isinstance(ty, (TOpt, TAny)):
+                    # the declared field type excludes None: a typing obligation of the contract file (not a property clause)
+                    self.ctx.oblige(st, 'type:%s.%s-not-None@L%s' % (base.cls, t.attr, t.lineno), z3.Not(v.isnone), t, kind='type-decl')
+                    st.assume(z3.Not(v.isnone)); v = v.val
                 heap_set(st, base, t.attr, self.coerce(v, ty, 'field %s.%s' % (base.cls, t.attr)))
         elif isinstance(t, (ast.Tuple, ast.List)):
             if isinstance(v, VTuple):
@@ -776,6 +822,10 @@ class Exec:
                 k = len(t.elts)
                 self.may_raise(st, 'ValueError', t, v.n != k, v.n == k, 'unpack arity')
                 for j, tt in enumerate(t.elts): self.assign(tt, wrap(z3.Select(v.arr, j), v.elem), st)
+            elif isinstance(v, VAny) and all(isinstance(x, ast.Name) and x.id in self.ctx.c.locals for x in t.elts):
+                # element of an untyped list whose shape the contract declares (locals): fresh values of the declared types
+                for x in t.elts:
+                    fv = fresh(x.id, self.ctx.c.locals[x.id]); st.pc += wf(fv); st.env[x.id] = fv
             else:
                 raise ToolLimit('tuple unpack of %s (line %s)' % (type(v).__name__, t.lineno))
         elif isinstance(t, ast.Subscript):
@@ -1193,6 +1243,8 @@ def verify(contract, unroll=0, shard=(0, 1)):
     exc_params = [n for n in argnames if isinstance(c.params[n], TExc)]
     for n in argnames:
         if n in exc_params: continue
+        if n == 'cls' and isinstance(c.params[n], TAny) and '.' in c.func:
+            st.env[n] = VFunc('class', c.names.get(c.func.split('.')[0], c.func.split('.')[0])); continue
         v = mk_sym(n, c.params[n]); st.env[n] = v; st.pc += wf(v)
         alloc_bound(st, v)
     for r in c.requires: st.assume(ex.spec_eval(r.text, st, st.env))
@@ -1253,6 +1305,8 @@ def verify(contract, unroll=0, shard=(0, 1)):
                 ctx.oblige(o.state, 'escape[%s]@path%d' % (o.exc, pi), z3.BoolVal(False), node,
                            props=c.escape_props if c.escape_props is not None else None, kind='escape')
             else:
+                if not c.raises[allowed[0]]:
+                    ctx.oblige(o.state, 'raises-allowed[%s<=%s]@path%d' % (o.exc, allowed[0], pi), z3.BoolVal(True), node, kind='raises-allowed')
                 for p in c.raises[allowed[0]]:
                     ctx.oblige(o.state, 'raises[%s]%s@path%d' % (allowed[0], p.label, pi), ex.spec_eval(p.text, o.state, entry_env), node,
                                props=p.props, kind='raises')
